@@ -601,6 +601,63 @@ func c09Siblings(w *ndWriter, wait time.Duration) {
 	e.finish(w, "sibling-pools", true)
 }
 
+// a panic handler that takes its time and needs the pool itself: it schedules a follow-up job and waits until that job has run.
+// While it runs, the pool goes on working for everybody else ("does not keep later accepted jobs from running").
+func c09HandlerNeedsPool(w *ndWriter, wait time.Duration) {
+	e := newC09(3, 1, 1, 8, 8)
+	acc := map[int]bool{}
+	var amu sync.Mutex
+	followRan := make(chan struct{})
+	e.pool.SetPanicHandler(func(p interface{}) {
+		id := 0
+		if jp, ok := p.(jobPanic); ok {
+			id = jp.id
+		}
+		e.rec.ev(E{"ev": "handler", "id": id, "r": fmt.Sprint(p)})
+		f := mkJob(50, "ok")
+		inner := e.fn(f)
+		if e.pool.Schedule(func() { inner(); close(followRan) }) == nil {
+			e.rec.ev(E{"ev": "sched", "id": 50, "r": "ok"})
+			amu.Lock()
+			acc[50] = true
+			amu.Unlock()
+			select {
+			case <-followRan:
+			case <-time.After(3 * time.Second):
+				e.rec.ev(E{"ev": "starved", "id": 50, "r": "-"}) // the pool did not run an accepted job while the handler was running
+			}
+		}
+	})
+	for id := 1; id <= 2; id++ {
+		if e.schedule(mkJob(id, "ok"), 0) == "ok" {
+			acc[id] = true
+		}
+	}
+	if e.schedule(mkJob(3, "panic"), 0) == "ok" {
+		acc[3] = true
+	}
+	time.Sleep(2 * time.Millisecond)
+	for id := 4; id <= 6; id++ {
+		if e.schedule(mkJob(id, "ok"), 0) == "ok" {
+			amu.Lock()
+			acc[id] = true
+			amu.Unlock()
+		}
+	}
+	select {
+	case <-followRan:
+	case <-time.After(4 * time.Second):
+	}
+	amu.Lock()
+	a2 := map[int]bool{}
+	for k, v := range acc {
+		a2[k] = v
+	}
+	amu.Unlock()
+	e.quiesce(a2, wait)
+	e.finish(w, "handler-needs-pool", true)
+}
+
 // a closed pool refuses: after Close has returned every submission - Schedule, ScheduleWithTimeout, InvokeWithTimeout - reports
 // ErrWorkerPoolIsClosed, whether Close also closes the job queue (the default) or leaves it open
 func c09ClosedPool(w *ndWriter, wait time.Duration) {
@@ -695,7 +752,8 @@ func c09Main(args []string) error {
 		c09PreAllocRace(w, wait)
 		c09Siblings(w, wait)
 		c09ClosedPool(w, wait)
-		runs += 6
+		c09HandlerNeedsPool(w, wait)
+		runs += 7
 		c09ExpiryBurst(w, wait)
 		runs += 2
 		c09PanicBurst(w, wait)
